@@ -153,6 +153,39 @@ def receive_once(cf, fields, data, M, pc_id, groups, reception, ts_name, frag_so
             if order == 2:
                 ae.add_scu(sopclass.storage_scu, [sop_class])
             store, cb = ae.store_in_file, ae.get_file
+        elif reception == 'proxy':
+            # the application's get_file returns an object that BEHAVES like a file (write / writelines / seek / tell /
+            # read / close) without being an io class - a wrapper that counts bytes, say
+            class Counting(object):
+                def __init__(self):
+                    self._fp = tempfile.TemporaryFile()
+                    self.written = 0
+
+                def write(self, data):
+                    self.written += len(data)
+                    return self._fp.write(data)
+
+                def writelines(self, lines):
+                    for line in lines:
+                        self.write(line)
+
+                def seek(self, *a):
+                    return self._fp.seek(*a)
+
+                def tell(self):
+                    return self._fp.tell()
+
+                def read(self, *a):
+                    return self._fp.read(*a)
+
+                def close(self):
+                    return self._fp.close()
+
+            def cb(context, command_set):
+                fp = Counting()
+                applicationentity.write_meta(fp, command_set, context.supported_ts)
+                return fp, 0
+            store = frozenset([sop_class])
         elif reception == 'spool':
             # an application-supplied get_file whose file does not start at 0: it writes a record header of its own
             # first and reports where the DICOM content begins; the file is handed over positioned there
@@ -296,7 +329,7 @@ def run_exhaustive(ctx, job):
         reception, ts_name = 'memory', ('implicit', 'explicit', 'big')[idx % 3]
         if cf == 0x0001 and data:
             fields = store_fields(idx)
-            reception = ('tempfile', 'directory', 'memory', 'spool')[(idx // 4) % 4]
+            reception = ('tempfile', 'directory', 'memory', 'spool', 'proxy')[(idx // 4) % 5]
         nfrag = len(dg.ref_fragments(refcmd.encode(dg.expected_fields({'cf': cf, 'fields': fields, 'data': data})),
                                      data, M, 1))
         if nfrag > job['maxfrag']:
@@ -343,7 +376,7 @@ def run_tiny(ctx):
             data = dg.patterned(L, M)
             n = len(dg.ref_fragments(refcmd.encode(dg.expected_fields({'cf': 1, 'fields': fields, 'data': data})),
                                      data, M, 5))
-            for ri, reception in enumerate(('memory', 'tempfile', 'directory', 'spool')):
+            for ri, reception in enumerate(('memory', 'tempfile', 'directory', 'spool', 'proxy')):
                 for groups in (None, [(0, n)], [(0, n - 1), (n - 1, n)], [(0, n // 2), (n // 2, n)],
                                [(0, 1), (1, n - 2), (n - 2, n)]):
                     try:
@@ -511,7 +544,7 @@ def random_case(draw):
     cuts = sorted(set(draw(st.lists(st.integers(1, max(1, n - 1)), max_size=min(n - 1, 12))))) if n > 1 else []
     bounds = [0] + [c for c in cuts if 0 < c < n] + [n]
     groups = [(a, b) for a, b in zip(bounds, bounds[1:])]
-    reception = draw(st.sampled_from(['memory', 'tempfile', 'directory', 'spool'])) if cf == 1 else 'memory'
+    reception = draw(st.sampled_from(['memory', 'tempfile', 'directory', 'spool', 'proxy'])) if cf == 1 else 'memory'
     ts_name = draw(st.sampled_from(['implicit', 'explicit', 'big'] + OPAQUE_TS))
     src = draw(st.sampled_from(['ref', 'ref', 'lib']))
     dstype = draw(st.one_of(st.sampled_from(DSTYPES), st.integers(0, 0xFFFF).filter(lambda v: v != 0x0101)))
@@ -544,7 +577,7 @@ def run(ctx):
     ctx.rule = ('messages of all 23 command fields, command sets and fragments produced by the reference '
                 'encoder (a quarter by the library), every composition of the fragment list into P-DATA-TF PDUs '
                 'for lists up to the bound (2^(n-1) groupings each), Hypothesis-drawn groupings for longer lists; '
-                'in-memory, temp-file, directory-backed and spool-file (application get_file reporting a non-zero start) reception; Command Data Set Type of data-bearing messages drawn from {0001H, 0000H, 0102H, FFFFH, 0100H, any value but 0101H}; genuine data sets in 3 transfer syntaxes; sequences of 2-3 (thorough 4) messages of mixed kind on one '
+                'in-memory, temp-file, directory-backed, spool-file (application get_file reporting a non-zero start) and file-proxy (an object that behaves like a file without being an io class) reception; Command Data Set Type of data-bearing messages drawn from {0001H, 0000H, 0102H, FFFFH, 0100H, any value but 0101H}; genuine data sets in 3 transfer syntaxes; sequences of 2-3 (thorough 4) messages of mixed kind on one '
                 'association through the real provider loop; one association carrying 1.1 GiB (thorough: 4.5 GiB) of ordinary 4 MiB messages; '
                 'non-trivial = >=3 fragments and a grouping that is neither all-singletons nor one block; '
                 'distinct by (message, M, L, grouping, reception)')
